@@ -76,6 +76,7 @@ class RecLearner:
         self.batch_mode = batch_mode
         self.kw_keys = tuple(kw_keys)
         self.calls = []
+        self.raw = []             # one entry per invocation of a method of this object (phase 5): what SafeLearner really calls
         self.probes = 0
         self.n_pred = 0
         self.n_score = 0
@@ -139,12 +140,14 @@ class RecLearner:
         e = self._entry(self.n_pred)
         self._last_info = self._info(e.get("ip"))
         self.n_pred += 1
-        if self.fmt in ("pmf", "pmfK"):
+        if self.fmt in ("pmf", "pmfK", "pmfB"):
             # answer with a PMF over the action list; SafeLearner draws the action (the learner does not know which)
             ws = [w[0] / w[1] for w in dict((n, w) for n, w in e["pm"])[len(actions)]]
             kw = self._kw(e) if self.fmt == "pmfK" else {}
             self.calls.append({"m": "predict", "ctx": canon(context), "acts": canon(actions), "ctx_id": id(context), "b": b,
                                "ret": {"a": None, "p": None, "kw": canon(kw), "pmf": canon(ws)}, "info": self._last_info})
+            if self.fmt == "pmfB":
+                return list(ws)           # a bare list: SafeLearner reads it as a PMF when its sum is within 0.001 of 1
             return ({"pmf": ws}, kw) if self.fmt == "pmfK" else {"pmf": ws}
         a = self._choose(e, actions)
         has_p = self.fmt in ("AP", "APK", "dAP", "dAPK")
@@ -157,20 +160,28 @@ class RecLearner:
     # ---- Learner interface
     def predict(self, context, actions):
         if is_batch(context) or is_batch(actions):
+            n = len(actions) if is_batch(actions) else len(context)
             if self.batch_mode == "unaware":
+                self.raw.append({"k": "batch", "m": "predict", "ctx": [canon(c) for c in _rows(context, n)], "ok": False})
                 raise BatchUnaware("batched predict")
             self.n_bcall += 1
-            n = len(actions) if is_batch(actions) else len(context)
-            return [self._predict_row(c, A, self.n_bcall) for c, A in zip(_rows(context, n), _rows(actions, n))]
+            out = [self._predict_row(c, A, self.n_bcall) for c, A in zip(_rows(context, n), _rows(actions, n))]
+            a0 = out[0] if out else None
+            self.raw.append({"k": "batch", "m": "predict", "ctx": [canon(c) for c in _rows(context, n)], "ok": True,
+                             "w": len(a0) if hasattr(a0, "__len__") and not (hasattr(a0, "keys") and hasattr(a0, "__getitem__")) else None})
+            return out
+        self.raw.append({"k": "row", "m": "predict", "ctx": [canon(context)]})
         return self._predict_row(context, actions, None)
 
     def learn(self, context, action, reward, probability, **kwargs):
         if any(is_batch(x) for x in (context, action, reward, probability)):
             if self.batch_mode == "unaware":
+                self.raw.append({"k": "batch", "m": "learn", "ctx": [canon(c) for c in _rows(context, len(action))], "ok": False})
                 raise BatchUnaware("batched learn")
             self.n_bcall += 1
             n = len(action)
             C = _rows(context, n)
+            self.raw.append({"k": "batch", "m": "learn", "ctx": [canon(c) for c in C], "ok": True})
             P = list(probability) if isinstance(probability, (list, tuple)) else [probability] * n
             for i in range(n):
                 self._info(self._entry(self.n_pred).get("il"))
@@ -178,6 +189,7 @@ class RecLearner:
                                    "p": canon(P[i]), "kw": canon({k: v[i] for k, v in kwargs.items()}),
                                    "ctx_id": id(C[i]), "b": self.n_bcall})
             return
+        self.raw.append({"k": "row", "m": "learn", "ctx": [canon(context)]})
         self.calls.append({"m": "learn", "ctx": canon(context), "a": canon(action), "r": canon(reward), "p": canon(probability),
                            "kw": canon(kwargs), "ctx_id": id(context), "b": None})
         self.calls[-1]["info"] = self._info(self._entry(self.n_pred).get("il"))
@@ -193,12 +205,16 @@ class RecLearner:
     def _score(self, context, actions, action):
         if context is None and actions is None and action is None:
             self.probes += 1          # SafeLearner.has_score probes with (None,None,None)
+            self.raw.append({"k": "probe"})
             return 0.5
         if any(is_batch(x) for x in (context, actions, action)):
             if self.batch_mode == "unaware":
+                self.raw.append({"k": "batch", "m": "score", "ctx": [canon(c) for c in _rows(context, len(action))], "ok": False})
                 raise BatchUnaware("batched call")
             self.n_bcall += 1
             n = len(action)
             C, acts = _rows(context, n), _rows(actions, n)
+            self.raw.append({"k": "batch", "m": "score", "ctx": [canon(c) for c in C], "ok": True})
             return [self._score_row(C[i], acts[i], action[i], self.n_bcall) for i in range(n)]
+        self.raw.append({"k": "row", "m": "score", "ctx": [canon(context)]})
         return self._score_row(context, actions, action, None)
